@@ -644,3 +644,13 @@ def _append(ex, st, l, x):
 @SPEC.fn("exc_code")
 def _exc_code(ex, st, name):
     return VOpaque("exc", z3.IntVal(SPEC.exception_codes[z3.simplify(name.e).as_string()]))
+
+
+@SPEC.fn("empty_strs")
+def _empty_strs(ex, st):
+    return VList(TStr(), z3.Empty(z3.SeqSort(S)))
+
+
+@SPEC.fn("empty_bools")
+def _empty_bools(ex, st):
+    return VList(TBool(), z3.Empty(z3.SeqSort(B)))
